@@ -136,6 +136,13 @@ func New(ctx context.Context, params ...Parameter) (*Service, error) {
 func (s *Service) SetBeaconBlockRoot(slot phase0.Slot, root phase0.Root) {
 	s.beaconBlockRootsMu.Lock()
 	s.beaconBlockRoots[slot] = root
+	// A root is removed when its slot is aggregated, but most slots are not aggregated by us;
+	// remove those that are too old to be asked for.
+	for rootSlot := range s.beaconBlockRoots {
+		if uint64(rootSlot)+s.slotsPerEpoch < uint64(slot) {
+			delete(s.beaconBlockRoots, rootSlot)
+		}
+	}
 	s.beaconBlockRootsMu.Unlock()
 }
 
